@@ -261,6 +261,7 @@ def rule_wit_for(prop):
         except Exception as e:  # noqa
             return [Ob("WIT", "WIT|build", "viol", "-", "infrastructure: %s" % e)]
         n = 0
+        todo = []
         for f in files:
             path = os.path.join(wdir, f)
             src = open(path).read()
@@ -268,10 +269,13 @@ def rule_wit_for(prop):
             mexp = re.search(r"//@ expect: (\S+)", src)
             if not mprop or not mexp or prop not in mprop.group(1).split():
                 continue
+            todo.append((f, path, src, mexp.group(1)))
+        from concurrent.futures import ThreadPoolExecutor
+        with ThreadPoolExecutor(max_workers=8) as ex:
+            results = list(ex.map(lambda it: _compile(it[1], rlib, deps, os.path.join(shared["work"], "w_" + it[0])), todo))
+        for (f, path, src, expect), (rc, errs) in zip(todo, results):
             n += 1
-            expect = mexp.group(1)
             name = f[:-3]
-            rc, errs = _compile(path, rlib, deps, shared["work"])
             k = "WIT|%s" % name
             if expect == "ok":
                 if rc == 0:
